@@ -217,7 +217,7 @@ func TestC15(t *testing.T) {
 			rep.Count("workload_c13", 2)
 		case 4:
 			c16streamRequests(aux, seed, 7000+i)
-			c16heartbeats(aux, seed, 7000+i, 20*time.Millisecond)
+			_, _ = c16heartbeats(aux, seed, 7000+i, 20*time.Millisecond)
 			rep.Count("workload_c16", 2)
 		}
 		rep.Eval(1)
